@@ -27,6 +27,38 @@ def _contains(items: list[object], obj: object) -> bool:
     return any(_eq(item, obj) for item in items)
 
 
+class _Seen:
+    """The distinct values met so far, by Liquid equality.
+
+    Strings, numbers, booleans and nil are looked up in a set. Anything else, like
+    hashes, arrays and drops, which might not be hashable, is compared with
+    every value seen before it.
+    """
+
+    __slots__ = ("scalars", "others", "everything")
+
+    def __init__(self) -> None:
+        self.scalars: set[tuple[bool, object]] = set()
+        self.others: list[object] = []
+        self.everything: list[object] = []
+
+    def add(self, obj: object) -> bool:
+        """Return `True` if _obj_ is new, `False` if an equal value was seen before."""
+        if type(obj) in (str, int, float, bool, type(None)) and obj == obj:  # noqa: PLR0124
+            # Remember 1 == True and 0 == False in Python, but not in Liquid.
+            key = (type(obj) is bool, obj)
+            if key in self.scalars or (self.others and _contains(self.others, obj)):
+                return False
+            self.scalars.add(key)
+        else:
+            if _contains(self.everything, obj):
+                return False
+            self.others.append(obj)
+
+        self.everything.append(obj)
+        return True
+
+
 class UniqFilter:
     """An implementation of the `uniq` filter that accepts lambda expressions."""
 
@@ -72,20 +104,18 @@ class UniqFilter:
         # to handle sequences containing unhashable objects, like dictionaries and
         # lists. This is probably quite slow.
 
+        seen = _Seen()
+
         if isinstance(key, LambdaExpression):
-            keys: list[object] = []
             items: list[object] = []
 
             for item, rv in zip(left, key.map(context, left), strict=True):
-                current_key = MISSING if is_undefined(rv) else rv
-                if not _contains(keys, current_key):
-                    keys.append(current_key)
+                if seen.add(MISSING if is_undefined(rv) else rv):
                     items.append(item)
 
             return items
 
         if key is not None:
-            keys = []
             result = []
             for obj in left:
                 try:
@@ -98,14 +128,9 @@ class UniqFilter:
                         token=None,
                     ) from err
 
-                if not _contains(keys, item):
-                    keys.append(item)
+                if seen.add(item):
                     result.append(obj)
 
             return result
 
-        result = []
-        for obj in left:
-            if not _contains(result, obj):
-                result.append(obj)
-        return result
+        return [obj for obj in left if seen.add(obj)]
